@@ -450,7 +450,8 @@ LIB = [
 def lib_entries():
     out = []
     for ty, nm in LIB:
-        out.append('    v.push(entry::<%s>("%s", &[0], None, &["lib"]));' % (ty, nm))
+        tags = '"lib"' + (', "zstseq"' if "<()>" in ty else "")
+        out.append('    v.push(entry::<%s>("%s", &[0], None, &[%s]));' % (ty, nm, tags))
     return out
 
 
@@ -469,7 +470,7 @@ def curated():
     T.append(S("OneField", [F("a", "u64")], repr="C", containers=("vec", "arr")))
     T.append(S("OneFieldRust", [F("a", "u16")], containers=("vec", "arr")))
     T.append(S("Transparent1", [F("a", "u32")], repr="transparent", containers=("vec",)))
-    T.append(S("UnitS", [], containers=("vec", "opt")))
+    T.append(S("UnitS", [], tags=("zstseq",), containers=("vec", "opt")))
     T.append(S("TupleS", [F("0", "u16"), F("1", "u16")], kind="tuple", repr="C", containers=("vec", "arr")))
     T.append(S("TupleMixed", [F("0", "u8"), F("1", "String"), F("2", "Vec<u16>")], kind="tuple"))
     T.append(S("WithBoolChar", [F("a", "bool"), F("b", "bool"), F("c", "u16"), F("d", "char")], repr="C", containers=("vec", "arr", "avec")))
